@@ -40,26 +40,39 @@ class LDict(LContainer):
     def __repr__(self):
         return f"<LDict {self.name}>"
 
-    def lookup(self, it, key):
+    def lookup(self, it, key, need_presence=True):
+        """the entry for `key` (aliasing with the keys seen so far is decided here).  Whether the key
+        was present in the pre-state is decided only when the caller needs to know."""
+        found = None
         for e in self.entries:
             c = it.equal(e.key, key)
             if it.decide(c):
-                return e
-        if self.complete:
-            e = Entry(key, False, None)
-        else:
-            present = it.p.fresh(f"{self.name}.has", "bool")
-            val = None
-            if it.decide(present):
-                present = True
-                if self.schema is None:
-                    raise Unsupported(f"no schema for the values of {self.name}")
-                val = self.schema(it, key, f"{self.name}[..]")
+                found = e
+                break
+        if found is None:
+            if self.complete:
+                found = Entry(key, False, None)
             else:
-                present = False
-            e = Entry(key, present, val)
-        self.entries.append(e)
-        return e
+                found = Entry(key, it.p.fresh(f"{self.name}.has", "bool"), None)
+            self.entries.append(found)
+        if need_presence:
+            self.force(it, found)
+        return found
+
+    def force(self, it, e):
+        """decide the presence of an entry (fork) and materialise its pre-state value"""
+        if e.present is True or e.present is False:
+            return
+        if it.decide(e.present):
+            e.pre_present = e.present = True
+            e.pre_value = e.value = self.materialise(it, e.key)
+        else:
+            e.pre_present = e.present = False
+
+    def materialise(self, it, key):
+        if self.schema is None:
+            raise Unsupported(f"no schema for the values of {self.name}")
+        return self.schema(it, key, f"{self.name}[..]")
 
 
 class LList(LContainer):
@@ -116,6 +129,14 @@ class LazyModel:
             return r
         raise Unsupported("set(iterable)")
 
+    @staticmethod
+    def is_new_container(v):
+        return (isinstance(v, dict) and not v) or (isinstance(v, SymSeq) and v.kind == "list" and isinstance(v.length, int)
+                                                     and v.length == 0) or (isinstance(v, LContainer) and v.complete
+                                                                            and not getattr(v, "entries", None)
+                                                                            and not getattr(v, "appended", None)
+                                                                            and not getattr(v, "added", None))
+
     def wrap_new(self, v, name):
         """a freshly created empty literal stored into a container becomes a container object"""
         if isinstance(v, dict) and not v:
@@ -141,13 +162,25 @@ class LazyModel:
                 return Builtin("dict.get", get)
             if name == "setdefault":
                 def setdefault(it2, n2, key, default=None, obj=obj):
+                    if self.is_new_container(default):
+                        # d.setdefault(k, {}) : whether the intermediate container existed does not matter for
+                        # what is stored into it: no fork; the result is "the existing one or a new empty one"
+                        e = obj.lookup(it2, key, need_presence=False)
+                        if e.present is True:
+                            return e.value
+                        if e.present is False:
+                            v = self.wrap_new(default, f"{obj.name}[new]")
+                        else:
+                            v = obj.materialise(it2, key)
+                        e.present, e.value, e.touched = True, v, True
+                        self.record(it2, "ensure", obj, key, v)
+                        return v
                     e = obj.lookup(it2, key)
                     if e.present is True:
                         return e.value
-                    v = self.wrap_new(default, f"{obj.name}[new]")
-                    e.present, e.value, e.touched = True, v, True
-                    self.record(it2, "set", obj, key, v)
-                    return v
+                    e.present, e.value, e.touched = True, default, True
+                    self.record(it2, "set", obj, key, default)
+                    return default
                 return Builtin("dict.setdefault", setdefault)
             raise Unsupported(f"dict.{name} on a lazily initialised dict")
         if isinstance(obj, LList):
@@ -178,7 +211,7 @@ class LazyModel:
 
     def setitem(self, it, obj, idx, v, node):
         if isinstance(obj, LDict):
-            e = obj.lookup(it, idx)
+            e = obj.lookup(it, idx, need_presence=False)
             v = self.wrap_new(v, f"{obj.name}[new]")
             e.present, e.value, e.touched = True, v, True
             self.record(it, "set", obj, idx, v)
